@@ -113,6 +113,19 @@ int main(void) {
             } else if (!strcmp(op, "min") || !strcmp(op, "max")) {
                 size_t ns = 0; void *n = op[1] == 'i' ? qtreetbl_find_min(t, &ns) : qtreetbl_find_max(t, &ns);
                 if (n) { puthex(stdout, n, ns); free(n); } else printf("none");
+            } else if (!strcmp(op, "nearself")) {
+                /* nearself <key> <len>: the probe is the first <len> bytes of the table's OWN buffer of <key> (what a cursor's name field
+                   points at with newmem=false): the answer depends on the probe's bytes and length, not on where they live.
+                   Prints like "near <probe> 0". */
+                size_t nk = unhex(a1, b1); void *k = dupbuf(b1, nk); size_t pl = (size_t)atol(a2);
+                qtreetbl_obj_t c = qtreetbl_find_nearest(t, k, nk, false); scribble_free(k, nk);
+                if (c.name == NULL || pl > c.namesize || pl == 0) printf("noself");
+                else {
+                    printf("near ");
+                    qtreetbl_obj_t o = qtreetbl_find_nearest(t, c.name, pl, true);
+                    if (o.name == NULL) printf("none end ");
+                    else { puthex(stdout, o.name, o.namesize); printf("="); puthex(stdout, o.data, o.data ? o.datasize : 0); free(o.name); free(o.data); printf(" more "); }
+                }
             } else if (!strcmp(op, "otherwalk")) {
                 /* otherwalk <n>: n walk starts (one step each, abandoned) and one complete walk on ANOTHER table of this process;
                    nothing done to another table may show in this one.  Prints what `size` prints. */
